@@ -262,7 +262,59 @@ def render_with_map(w):
 
 # ---- running Verus ---------------------------------------------------------------------
 
+_VERUS_VERSION = None
+
+
+def _verus_version():
+    global _VERUS_VERSION
+    if _VERUS_VERSION is None:
+        try:
+            _VERUS_VERSION = subprocess.run(['verus', '--version'], stdout=subprocess.PIPE, stderr=subprocess.STDOUT, text=True, timeout=60).stdout.strip()
+        except Exception as e:   # no version, no cache
+            _VERUS_VERSION = 'unknown:%r' % (e,)
+    return _VERUS_VERSION
+
+
+CACHE_DIR = os.path.join(VERIF, '.cache', 'verus')
+
+
 def run_verus(path, flags=(), rlimit=30, threads=16, log_air=False, timeout=1800):
+    """Runs Verus on one generated file.  The verdict for a byte-identical generated file (same flags, same Verus) is
+    reused from /verif/.cache/verus: every filesystem property reads the same run of the same unit, so a second check
+    on the same tree does not re-prove it.  KV_NO_CACHE=1 disables the reuse.  The generated file itself is always rebuilt
+    from /repo's current working tree before this point."""
+    import hashlib
+    text = open(path, 'rb').read()
+    crate = os.path.basename(path)[:-3]
+    key = hashlib.sha256(b'\0'.join([text, ' '.join(flags).encode(), str(rlimit).encode(), str(bool(log_air)).encode(),
+                                     crate.encode(), _verus_version().encode()])).hexdigest()
+    cpath = os.path.join(CACHE_DIR, key + '.json')
+    use_cache = os.environ.get('KV_NO_CACHE', '') != '1' and not _verus_version().startswith('unknown')
+    if use_cache and os.path.isfile(cpath):
+        try:
+            res = json.load(open(cpath))
+            res['cached'] = True
+            res['logdir'] = None
+            return res
+        except ValueError:
+            pass
+    res = _run_verus(path, flags, rlimit, threads, log_air, timeout)
+    if use_cache and res['rc'] is not None:
+        try:
+            os.makedirs(CACHE_DIR, exist_ok=True)
+            out = dict(res)
+            out['oblig_cache'] = count_obligations(res, crate) if log_air else None
+            out['cached'] = False
+            tmp = cpath + '.%d.tmp' % os.getpid()
+            json.dump(out, open(tmp, 'w'))
+            os.replace(tmp, cpath)
+            res['oblig_cache'] = out['oblig_cache']
+        except OSError:
+            pass
+    return res
+
+
+def _run_verus(path, flags=(), rlimit=30, threads=16, log_air=False, timeout=1800):
     cmd = ['verus', path, '--output-json', '--time-expanded', '--error-format=json',
            '--rlimit', str(rlimit), '--num-threads', str(threads), '--multiple-errors', '8'] + list(flags)
     logdir = None
@@ -391,6 +443,8 @@ def classify(unit, res):
 def count_obligations(res, crate):
     """Per function: number of `assert` statements in the initial-form AIR queries."""
     counts = {}
+    if res.get('oblig_cache') is not None:
+        return res['oblig_cache']
     if not res.get('logdir') or not os.path.isdir(res['logdir']):
         return counts
     for fn in os.listdir(res['logdir']):
